@@ -99,6 +99,82 @@ def _worker(args):
     return acc.viol, acc.samples, acc.counts, acc.distinct
 
 
+QUALIFIER_FAMILIES = [lambda j: f"Z{j}", lambda j: f"{290 + 3 * j}", lambda j: "A" * j, lambda j: f"E{j:02d}", lambda j: f"{j}", lambda j: f"Q{j},"]
+
+
+def large_pools(res, work, n):
+    """random pools of 1..14 entries whose qualifiers are prefixes / substrings / lists of each other; entered value: absent, empty, a qualifier, a substring of
+    the offered qualifiers, a value that is in no relation to them. The real result is decided by TLC (PoolTrace.tla)."""
+    import ahb  # noqa: F401
+    from common import validate_traces
+    from ahbicht.models.validation_values import RequirementValidationValue as R
+    from ahbicht.validation.validation import validate_data_element_valuepool
+    from maus.models.edifact_components import DataElementValuePool, ValuePoolEntry
+    rng = random.Random(seed() * 419 + 17)
+    traces = []
+
+    async def go():
+        for tid in range(1, n + 1):
+            size = rng.choice([1, 2, 3, 5, 8, 9, 10, 12, 14])
+            fam = rng.choice(QUALIFIER_FAMILIES)
+            quals = [fam(j) for j in range(1, size + 1)]
+            pool = [rng.choice("TTFFKI") for _ in range(size)]
+            sub = random.Random(rng.random())
+            entries = [ValuePoolEntry(qualifier=q, meaning=f"m{q}", ahb_expression=V.entry_expression(e, sub)) for q, e in zip(quals, pool)]
+            kind = rng.random()
+            if kind < 0.15:
+                inp, idx = rng.choice([None, ""]), -1
+            elif kind < 0.6:
+                idx = rng.randint(1, size)
+                inp = quals[idx - 1]
+            else:
+                joined = ", ".join(quals)
+                a = rng.randrange(len(joined))
+                cand = joined[a:a + rng.randint(1, 3)]
+                inp = rng.choice([cand, cand.strip(), quals[0][:1], quals[-1] + "0", "ZZ", ","])
+                if not inp:
+                    inp = "ZZ"
+                idx = quals.index(inp) + 1 if inp in quals else 0
+            seg = rng.choice(["REQUIRED", "REQUIRED", "OPTIONAL", "FORBIDDEN"])
+            el = DataElementValuePool(discriminator="n1", value_pool=entries, data_element_id="0333", entered_input=inp)
+            V.setup_cer()
+            try:
+                r = V.project_result(await validate_data_element_valuepool(el, {"REQUIRED": R.IS_REQUIRED, "OPTIONAL": R.IS_OPTIONAL, "FORBIDDEN": R.IS_FORBIDDEN}[seg]))
+            except BaseException as e:  # pylint:disable=broad-except
+                res.violation(f"validate_data_element_valuepool raised {type(e).__name__} for qualifiers {quals} entries {pool} input {inp!r}", {"kind": "large-pool"})
+                continue
+            offered = [quals.index(f"{q}") + 1 for q in _offered_qualifiers(r, quals)]
+            traces.append({"id": tid, "pool": pool, "inp": idx, "seg": seg, "quals": quals, "entered": inp,
+                           "result": {"offered": offered, "forbidden": r["status"] == "FORBIDDEN", "fill": r["fill"], "flagged": r["flagged"]}})
+
+    def _offered_qualifiers(r, quals):
+        return [quals[i - 1] for i in r["offered_raw"]] if "offered_raw" in r else r["offered_names"]
+
+    # project_result maps qualifier names to indices by 'Q<j>' - here the names are arbitrary, so read them directly
+    orig = V.project_result
+
+    def project_named(x):
+        v = x.validation_result
+        st, fill = V.STATUS[str(v.requirement_validation)]
+        return {"status": st, "fill": fill, "offered_names": list((v.possible_values or {}).keys()), "flagged": v.format_validation_fulfilled is False}
+
+    V.project_result = project_named
+    try:
+        asyncio.run(go())
+    finally:
+        V.project_result = orig
+    slim = [{k: v for k, v in t.items() if k not in ("quals", "entered")} for t in traces]
+    t2, acc, diag = validate_traces("PoolTrace", "PoolTrace.cfg", slim, work, tag="pooltrace")
+    res.add_tlc(f"PoolTrace: real results for {len(traces)} random pools of 1-14 entries with overlapping qualifier spellings decided by TLC against the pool rules", t2)
+    res.count("large_pools", len(traces))
+    for t in traces:
+        res.distinct(("pool", tuple(t["pool"]), tuple(t["quals"]), t["entered"], t["seg"]))
+        if t["id"] not in acc:
+            at, exp = diag.get(t["id"], (0, ()))
+            res.violation(f"value pool with qualifiers {t['quals']} (entry outcomes {t['pool']}), entered {t['entered']!r}, segment {t['seg']}: code {t['result']}; "
+                          f"documented {exp}", {"kind": "large-pool", "quals": t["quals"], "pool": t["pool"], "entered": t["entered"], "seg": t["seg"]})
+
+
 def run():
     from c02 import merge
     res = Result(PID)
@@ -122,8 +198,9 @@ def run():
         with mp.get_context("fork").Pool(16) as pool:
             merge(res, pool.map(_worker, [(str(dump4), i, 16, seed()) for i in range(16)]))
         dump4.unlink()
-    res.coverage["traces_validated_against_impl"] = res.coverage.get("validations", 0)
-    res.coverage["evaluations"] = res.coverage.get("validations", 0)
+    large_pools(res, work, 3000 if thorough else 400)
+    res.coverage["traces_validated_against_impl"] = res.coverage.get("validations", 0) + res.coverage.get("large_pools", 0)
+    res.coverage["evaluations"] = res.coverage.get("validations", 0) + res.coverage.get("large_pools", 0)
     res.coverage["exhaustive"] = True
     res.coverage["rule"] = ("one case = (pool of 1-3 entries with every combination of entry outcomes incl. unknown and invalid, entered input in {absent/empty, "
                             "each qualifier, a value not in the pool}, parent status): validated through validate_deep_anwendungshandbuch, "
